@@ -15,6 +15,33 @@ theorem VInv.init (cfg : Cfg) (t0 : Nat) : VInv cfg (Sys.init t0) := by
   · intro i th todo h; simp [Sys.init] at h
   · intro i th r q h; simp [Sys.init] at h
 
+theorem afterInc_allowed (cfg : Cfg) (q : QId) (thenA : Bool) (todo : List (QId × QuotaCfg))
+    (h : afterInc cfg q thenA = .allowed todo) : todo = chain cfg q := by
+  unfold afterInc at h
+  split at h
+  · simp only [Pc.allowed.injEq] at h; exact h.symm
+  · simp at h
+
+theorem incNext_allowed (cfg : Cfg) (q : QId) (ac : QId × QuotaCfg) (res : IncRes)
+    (rest charged : List (QId × QuotaCfg)) (thenA : Bool) (todo : List (QId × QuotaCfg))
+    (h : incNext cfg q ac res rest charged thenA = .allowed todo) : todo = chain cfg q := by
+  unfold incNext at h
+  split at h
+  · split at h
+    · exact afterInc_allowed cfg q thenA todo h
+    · simp at h
+  · split at h
+    · exact afterInc_allowed cfg q thenA todo h
+    · simp at h
+  · exact afterInc_allowed cfg q thenA todo h
+
+theorem refundNext_allowed (cfg : Cfg) (q : QId) (rest : List (QId × QuotaCfg)) (thenA : Bool)
+    (todo : List (QId × QuotaCfg)) (h : refundNext cfg q rest thenA = .allowed todo) : todo = chain cfg q := by
+  unfold refundNext at h
+  split at h
+  · exact afterInc_allowed cfg q thenA todo h
+  · simp at h
+
 /-- What one step of thread `tid` logs and where it goes, as far as verdicts are concerned. -/
 theorem stepThread_verdict (cfg : Cfg) (st : St) (now tid : Nat) (th : Thread) (log : List LEv)
     (hpre : ∀ todo, th.pc = .allowed todo →
@@ -33,27 +60,30 @@ theorem stepThread_verdict (cfg : Cfg) (st : St) (now tid : Nat) (th : Thread) (
     cases todo with
     | nil => simp
     | cons ac rest => obtain ⟨a, c⟩ := ac; simp
-  | inc todo thenA =>
+  | inc todo charged thenA =>
     cases todo with
     | nil =>
-      dsimp only
-      split
-      · refine ⟨by simp, ?_, by simp⟩
-        intro todo h
-        simp only [Pc.allowed.injEq] at h
-        exact ⟨[], by simp [h], by simp⟩
-      · simp
+      refine ⟨by simp, ?_, by simp⟩
+      intro todo h
+      exact ⟨[], by simp [afterInc_allowed cfg th.q thenA todo h], by simp⟩
     | cons ac rest =>
       obtain ⟨a, c⟩ := ac
       dsimp only
       refine ⟨by simp, ?_, by simp⟩
       intro todo h
-      split at h
-      · simp at h
-      · split at h
-        · simp only [Pc.allowed.injEq] at h
-          exact ⟨[], by simp [h], by simp⟩
-        · simp at h
+      exact ⟨[], by simp [incNext_allowed cfg th.q _ _ _ _ thenA todo h], by simp⟩
+  | refund todo thenA =>
+    cases todo with
+    | nil =>
+      refine ⟨by simp, ?_, by simp⟩
+      intro todo h
+      exact ⟨[], by simp [afterInc_allowed cfg th.q thenA todo h], by simp⟩
+    | cons ac rest =>
+      obtain ⟨a, c⟩ := ac
+      dsimp only
+      refine ⟨by simp, ?_, by simp⟩
+      intro todo h
+      exact ⟨[], by simp [refundNext_allowed cfg th.q _ thenA todo h], by simp⟩
   | allowed todo =>
     cases todo with
     | nil => simp
